@@ -579,6 +579,7 @@ static void s_gen_main(prng_t *r, int mode, plan_t *p);
 static void s_gen(prng_t *r, int mode, plan_t *p)
 {
     p->cfg[CF_DECL] = DECL_OF_INDEX();    /* one run in five starts from the initializer macros */
+    p->cfg[CF_REUSE] = REUSE_OF_INDEX();  /* one run in six: the allocator hands a freed block out again at once */
     if (mode == 110) { p->cfg[CF_JUNK] = 1 + prng_below(r, 254); p->cfg[CF_MAXLEN] = prng_below(r, 64); p->cfg[CF_NS] = 1; return; }
     s_gen_main(r, mode, p);
 }
